@@ -497,6 +497,17 @@ class Core(composites.Composite):
         """
         from armi.reactor.reactors import Reactor
 
+        # refuse an occupied location before anything is changed (the assembly used to be left
+        # renumbered and in the child list, and the message looked up the wrong key: KeyError)
+        targetLocator = spatialLocator or a.spatialLocator
+        if targetLocator is not None and targetLocator in self.childrenByLocator:
+            raise ValueError(
+                "Cannot add {} because location {} is already filled by {}."
+                "".format(
+                    a.getName(), targetLocator, self.childrenByLocator[targetLocator]
+                )
+            )
+
         # Negative assembly IDs are placeholders, and we need to renumber the assembly
         if a.p.assemNum < 0:
             a.renumber(self.r.incrementAssemNum())
@@ -515,14 +526,6 @@ class Core(composites.Composite):
         aName = a.getName()
 
         spatialLocator = spatialLocator or a.spatialLocator
-
-        if spatialLocator is not None and spatialLocator in self.childrenByLocator:
-            raise ValueError(
-                "Cannot add {} because location {} is already filled by {}."
-                "".format(
-                    aName, a.spatialLocator, self.childrenByLocator[a.spatialLocator]
-                )
-            )
 
         if spatialLocator is not None:
             # transfer spatialLocator to Core one
